@@ -214,11 +214,35 @@ def gen_dsl_package(rr, idx):
     return {'kind': 'dsl', 'name': 'pkg%d' % idx, 'doc': doc, 'variable_files': vfiles, 'files': {}, 'platform': None}
 
 
+def gen_dosini_package(rr, idx):
+    """the legacy package format: conf/experiment.conf + conf/stages.d/stage<N>.conf (+ variables, status)"""
+    n = rr.choice([1, 2, 3])
+    files = {
+        'data/in.txt': 'hello\n',
+        'conf/experiment.conf': "[DEFAULT]\nname=Test\n[SANDBOX]\n[ENV-MYENV]\nFOO=bar\nBAZ=%s\n" % rr.choice(['1', 'x y']),
+        'conf/variables.conf': "[GLOBAL]\nn=%d\nmsg=hi\n[STAGE1]\nk=1\n" % n,
+        'conf/stages.d/stage0.conf': ("[DEFAULT]\njob-type=local\n[Gen]\nexecutable=echo\narguments=%(msg)s data/in.txt:ref\n"
+                                      "references=data/in.txt:ref\nenvironment=myenv\nreplicate=%(n)s\n"
+                                      "[Agg]\nexecutable=cat\narguments=Gen:ref/out.stdout\nreferences=Gen:ref\naggregate=yes\n"),
+        'conf/stages.d/stage1.conf': ("[DEFAULT]\njob-type=local\n[Final]\nexecutable=cat\n"
+                                      "arguments=stage0.Agg:output %(k)s\nreferences=stage0.Agg:output\n"),
+        'conf/status.conf': "[STAGE0]\nstage-weight=0.5\n[STAGE1]\nstage-weight=0.5\n",
+    }
+    if rr.random() < 0.5:
+        # what an editor or a careless copy leaves next to the real files
+        stray = rr.choice(['stage0.orig.conf', 'stage1.bak.conf', 'stage0.old.conf'])
+        src = 'conf/stages.d/%s.conf' % stray.split('.')[0]
+        files['conf/stages.d/%s' % stray] = files[src].replace('executable=echo', 'executable=printf').replace(
+            'executable=cat', 'executable=head')
+    return {'kind': 'dosini', 'name': 'pkg%d' % idx, 'doc': {}, 'variable_files': [], 'files': files, 'platform': None}
+
+
 def gen_case(seed, tier, index=0):
     rr = random.Random(seed)
     pk = []
     for i in range(4):
-        pk.append(gen_dsl_package(rr, i) if rr.random() < 0.25 else gen_flowir_package(rr, i))
+        r = rr.random()
+        pk.append(gen_dsl_package(rr, i) if r < 0.25 else gen_dosini_package(rr, i) if r < 0.35 else gen_flowir_package(rr, i))
     nenv = TIERS[tier]['opts']['envs']
     envs = [{'hashseed': rr.randrange(1, 4294967295), 'listing_seed': rr.getrandbits(32), 'key_seed': rr.getrandbits(32)}
             for _ in range(nenv)]
@@ -295,9 +319,10 @@ def materialise(pkg, root, key_seed):
         rng = random.Random(key_seed)
         doc = shuffle_keys(doc, rng)
         vfs = [shuffle_keys(v, rng) for v in vfs]
-    fname = 'flowir_package.yaml' if pkg['kind'] == 'flowir' else 'dsl.yaml'
-    with open(os.path.join(path, 'conf', fname), 'w') as f:
-        yaml.safe_dump(doc, f, sort_keys=False)
+    if pkg['kind'] != 'dosini':
+        fname = 'flowir_package.yaml' if pkg['kind'] == 'flowir' else 'dsl.yaml'
+        with open(os.path.join(path, 'conf', fname), 'w') as f:
+            yaml.safe_dump(doc, f, sort_keys=False)
     for rel, content in pkg['files'].items():
         full = os.path.join(path, rel)
         os.makedirs(os.path.dirname(full), exist_ok=True)
